@@ -5,6 +5,7 @@ import (
 	"encoding/json"
 	"fmt"
 	"os"
+	"path/filepath"
 	"strings"
 
 	"gitlab.com/gomidi/midi/v2/smf"
@@ -315,7 +316,13 @@ var workerTempDir string
 // tempDir returns a per-process scratch directory that is removed when the worker ends.
 func tempDir(env *core.Env) string {
 	if workerTempDir == "" {
-		d, err := os.MkdirTemp("", "verif-files-")
+		// inside the driver's scratch directory (which the driver removes, also when this
+		// worker is killed or exits through a race report)
+		parent := ""
+		if j := os.Getenv("VERIF_JOB"); j != "" {
+			parent = filepath.Dir(j)
+		}
+		d, err := os.MkdirTemp(parent, "verif-files-")
 		if err != nil {
 			panic(err)
 		}
